@@ -41,6 +41,19 @@ def nested_pairs(rng):
     return progs
 
 
+HYGIENE = [
+    ("(let ((x 5)) (or #f x))", "V i:5"),
+    ("(let ((temp 5)) (cond (#f 1) (1 => (lambda (v) temp))))", "V i:5"),
+    ("(let ((atom-key 7)) (case (+ 1 0) ((1) atom-key) (else 0)))", "V i:7"),
+    ("(let ((not (lambda (v) v))) (unless #f 'ran))", "V y:ran"),
+    ("(let ((memv (lambda (a b) #f))) (case 1 ((1) 'one) (else 'other)))", "V y:one"),
+    ("(let ((null? (lambda (v) #t))) (case 1 ((1) => (lambda (k) 'one))))", "V y:one"),
+    # controls: the same shapes with other names
+    ("(let ((y 5)) (or #f y))", "V i:5"),
+    ("(let ((tmp 5)) (cond (#f 1) (1 => (lambda (v) tmp))))", "V i:5"),
+]
+
+
 def run(rep, tier, rng):
     n = 250 if tier == "quick" else 6000
     cases, pairs = [], []
@@ -79,6 +92,27 @@ def run(rep, tier, rng):
                            "with_derived_forms": o[0][j] if j is not None else {"ticks": o[1]},
                            "with_core_forms": d[0][j] if j is not None else {"ticks": d[1]}})
     rep.extra["programs_using_form"] = used
+    # the names the bundled templates introduce or rely on, used by the PROGRAM (the random programs above avoid them):
+    # each probe has the value R7RS assigns; a deviation listed under the open finding `non-hygienic-capture` is reported as
+    # KNOWN-FINDING, any other deviation (or a deviation on a probe not listed there) as a violation
+    listed = {}
+    for k in C.known_findings(PROP):
+        if k.get("status") == "open" and k.get("id") == "non-hygienic-capture":
+            listed = {w["form"]: w["observed"] for w in k.get("witnesses", [])}
+    got = C.run_hx([("hy", "prog", ["std"] + [f for f, _ in HYGIENE])]).get("hy", [])
+    known_now = []
+    for (form, want), g in zip(HYGIENE, got):
+        rep.count()
+        rep.nontrivial(("hygiene", form))
+        if g == want:
+            continue
+        if listed.get(form) == g:
+            known_now.append("%s => %s (R7RS: %s)" % (form, g[2:], want[2:]))
+        else:
+            rep.violation({"what": "a derived form binds or looks up a name of the PROGRAM (not the specified variables with the specified scope)",
+                           "form": form, "expected": want, "implementation": g})
+    if known_now:
+        rep.known("non-hygienic-capture: the bundled syntax-rules templates are expanded without renaming - " + "; ".join(known_now))
 
 
 def main(tier, seed):
